@@ -259,6 +259,12 @@ SEEDS = [
     "g = 1\nx = 1\nwhile true:\n    if g < 0:\n        x = x + 1\n    end\n    g = Uniform(-1, 3)\nend\n",
     "g = Uniform(-1, 1)\nx = 1\nwhile true:\n    if g > 0:\n        x = x + g\n    end\n    g = Uniform(-1, 1)\nend\n",
     "g = Uniform(-1, 1)\nh = 0\nx = 1\nwhile true:\n    if g > 0:\n        x = x + h\n    end\n    g = Uniform(-1, 1)\n    h = g\nend\n",
+    # guard over a variable with non-integer finite values (under cond2arithm the updates collapse to one term)
+    "c = 1\nx = 1\nwhile c == 1:\n    x = 2*x\n    c = 1/2 {1/2} 1\nend\n",
+    # closed forms whose special cases are merged into disjunctions `(n <= 1) | (n <= 2)` (printed route)
+    "c = 1\nd = 0\nx = 1\ny = 2\nwhile true:\n    y = x**2\n    if c == 1:\n        if d == 1:\n            x = x + 1\n        else:\n            d = 1\n        end\n    end\nend\n",
+    # characteristic polynomial with radical AND CRootOf roots (numeric_croots mixes floats and radicals)
+    "x = 1\ny = 2\nwhile true:\n    x, y = y, x + y\n    x = x + 2 {1/4} x {1/4} x - y\nend\n",
     # delayed constant chain (acyclic solver, zero-coefficient chains)
     "x = 0\ny = 0\nwhile true:\n    y = x\n    x = 1\nend\n",
     "x = 0\ny = 0\nz = 0\nwhile true:\n    z = y\n    y = x\n    x = x + 1\nend\n",
